@@ -18,6 +18,16 @@ import contextlib
 import faulthandler
 
 
+def scratch_root():
+    """scratch space outside /repo and /verif; RAM-backed when available (SQLite commits fsync)."""
+    d = os.environ.get("LMM_SCRATCH")
+    if d:
+        return d
+    if os.path.isdir("/dev/shm") and os.access("/dev/shm", os.W_OK):
+        return "/dev/shm"
+    return None
+
+
 def main(argv):
     prop, seed, shard, nshards, ncases, tier, out = argv
     seed, shard, nshards, ncases = int(seed), int(shard), int(nshards), int(ncases)
@@ -26,7 +36,7 @@ def main(argv):
     from .ctx import Ctx, CaseTimeout
     mod = importlib.import_module(f"lmmverif.props.{prop}")
     ctx = Ctx(prop, seed, tier, shard)
-    ctx.scratch = tempfile.mkdtemp(prefix=f"lmmverif_{prop}_", dir=os.environ.get("LMM_SCRATCH"))
+    ctx.scratch = tempfile.mkdtemp(prefix=f"lmmverif_{prop}_", dir=scratch_root())
     ctx.start_linecov(env.REPO)
     t0 = time.time()
     budget = float(os.environ.get("LMM_SHARD_BUDGET_S", "0")) or None
